@@ -81,12 +81,15 @@ class CmpAnalysis(Analysis):
             self._seen.add((rule, node.id, what))
             self.reports.append((rule, node, st, what, detail))
 
-    def _iter_var(self, a):
+    def _iter_var(self, a, st=None):
         a0 = strip(a)
         if a0 is not None and a0.k == "UnaryOperator" and a0.v == "&":
             b = strip(a0.kids[0])
             if b is not None and b.k == "DeclRefExpr" and "SetIteration" in (self.locals.get(b.n) or ""):
                 return b.n
+        if a0 is not None and a0.k == "DeclRefExpr" and st is not None:
+            # a pointer local that was pointed at one of the iterations on this path
+            return sget(st, "pt:" + a0.n)
         return None
 
     def on_node(self, node, st):
@@ -102,14 +105,21 @@ class CmpAnalysis(Analysis):
                                 "the exception raised by a key comparison is "
                                 "cleared instead of reaching the caller")
                 elif c == ("fn", "finiSetIteration") and len(n.kids) > 1:
-                    v = self._iter_var(n.kids[1])
+                    v = self._iter_var(n.kids[1], st)
                     if v is not None:
                         st = sdel(st, "it:" + v)
                 elif c[0] == "fn" and c[1] in DESCENTS and self.is_mutator and len(n.kids) > 1:
                     a = strip(n.kids[1])
                     if a is not None and "child" in text(a):
                         st = sset(st, "cm", node.where)
-            elif n.k == "BinaryOperator" and n.v == "=":
+            elif (n.k == "BinaryOperator" and n.v == "=") or (n.k == "VarDecl" and n.kids and n.kids[-1].k != "Absent"):
+                # SetIteration *a = &i1;   a = &i2;
+                tgt = strip(n.kids[0]).n if n.k == "BinaryOperator" and strip(n.kids[0]) is not None \
+                    and strip(n.kids[0]).k == "DeclRefExpr" else (n.n if n.k == "VarDecl" else None)
+                if tgt and "SetIteration *" in (self.locals.get(tgt) or ""):
+                    v = self._iter_var(n.kids[-1], st)
+                    st = sset(st, "pt:" + tgt, v) if v else sdel(st, "pt:" + tgt)
+            if n.k == "BinaryOperator" and n.v == "=":
                 l0 = strip(n.kids[0])
                 if l0 is not None and l0.k == "MemberExpr" and l0.n == "set":
                     b = strip(l0.kids[0])
@@ -147,7 +157,7 @@ class CmpAnalysis(Analysis):
             if c0 is not None and c0.k == "CallExpr" and callee(c0) == ("fn", "initSetIteration") \
                     and const_int(e0.kids[1]) == 0:
                 ok = (e0.v == "<") != want
-                v = self._iter_var(c0.kids[1])
+                v = self._iter_var(c0.kids[1], st)
                 if v is not None and ok:
                     self.iter_sites.add(node.id)
                     return sset(st, "it:" + v, node.where)
